@@ -268,6 +268,7 @@ PROPS = {
         "streams": [
             {"stream": "decode-hostile", "n_quick": 30000, "n_thorough": 3000000},
             {"stream": "ber", "n_quick": 10000, "n_thorough": 1000000},
+            {"stream": "hostile-live", "n_quick": 20, "n_thorough": 400, "timeout_quick": 900, "timeout_thorough": 6000},
         ],
         "trusted": BER_TRUST,
         "assumptions": ["stack exhaustion in asn1-ber's recursive reader on deeply nested input is outside the model (see C07)"],
